@@ -1,5 +1,11 @@
 (* C07 — parameter and initial-value overrides reach exactly their targets; nodes sharing template objects stay
    independent.  Statements only; every proof is `exact <lemma of ValuesProofs>` or a computed witness. *)
+(* What is and what is not a theorem here (independent review, DESIGN.md section 12): C07_full is a sharing / aliasing
+   refinement — the store with its shared objects behaves like the unshared tree.  Impl and Spec differ in the path resolver
+   (over the store / over the tree) and in the update operations.  They SHARE `overrides` / `pick` (distribution of array values
+   in path order), `render` and `finish` (the compiled arguments and initial state show the overridden values) and `cast_val`
+   (integer-declared constants): those three parts of the property hold by construction in the model and are decided by the
+   correspondence run only. *)
 From Coq Require Import List String ZArith QArith Qcanon Bool Arith.
 From PV Require Import Heap Values ValuesProofs.
 Import ListNotations.
